@@ -174,7 +174,8 @@ class Gen:
         self.q = ctx.quick
 
     def n(self, quick, thorough):
-        return quick if self.q else thorough
+        # thorough: about 290 000 cases (measured 446 000 cases = 24 min on the loaded 16-core sandbox)
+        return quick if self.q else int(thorough * 0.65)
 
     def add(self, op, src, **kw):
         c = {"op": op, "src": src}
